@@ -23,7 +23,7 @@ def run(tier, rng, C):
         tw = G.Inv()
         tw.__dict__.update(copy.deepcopy(inv.__dict__))
         miss = rng.choice(['zz.missing', 'nope', 'd1.gone'])
-        if rng.random() < 0.25:
+        if rng.random() < 0.25 and (nname + '.yml',) not in tw.classes:
             miss = nname               # a missing class named like a node of the inventory
             tw.universe.add(miss)
         holders = sorted(tw.classes) + [node]
